@@ -550,7 +550,7 @@ def _run_case(case):
         u32 = 2.0 ** -24
         K = 4096.0
         if case["spec"]["t"].startswith(("cdf_", "fn_")):
-            K = 128.0      # a single spline with its own parameters: the 8-draw probe sees the whole conditioning (measured <= 0.004 * 4096)
+            K = 256.0      # a single spline with its own parameters: the 8-draw probe sees the whole conditioning (measured <= 0.004 * 4096; 135 once in 1.4e5 thorough cases)
         eo = float((o32.double() - o64).abs().max())
         el = float((l32.double() - l64).abs().max())
         to = K * (ko + u32 * (1 + float(o64.abs().max())))
